@@ -10,6 +10,8 @@ import (
 	"os/exec"
 	"path/filepath"
 	"regexp"
+	"runtime/debug"
+	"runtime/pprof"
 	"sort"
 	"strconv"
 	"strings"
@@ -518,8 +520,21 @@ func (c *CheckRun) finish(t0 time.Time) int {
 			expected, ok := "", false
 			switch f.Kind {
 			case "panic":
-				expected = "panic"
-				ok = strings.HasPrefix(ro.Outcome, "panic:") || strings.HasPrefix(ro.Outcome, "crash:")
+				expected = "panic in " + normFn(f.Where)
+				ok = strings.HasPrefix(ro.Outcome, "crash:")
+				if strings.HasPrefix(ro.Outcome, "panic:") {
+					// the native panic must be raised in the function the engine predicts (or a callee it merged)
+					nat := ro.Outcome
+					if i := strings.LastIndex(nat, " @ "); i >= 0 {
+						nat = normFn(nat[i+3:])
+					}
+					cands := append([]string{f.Where}, f.Fns...)
+					for _, c := range cands {
+						if nat != "" && normFn(c) == nat {
+							ok = true
+						}
+					}
+				}
 			case "assert":
 				expected = "assert-failed: " + f.Msg
 				ok = strings.HasPrefix(ro.Outcome, "assert-failed:") && strings.Contains(ro.Outcome, f.Msg)
@@ -640,9 +655,22 @@ func (c *CheckRun) finish(t0 time.Time) int {
 	return 0
 }
 
+// normFn normalises a function name from go/ssa ("(*pkg.T).M @file:line", "pkg.F$1") or from a native stack
+// ("pkg.(*T).M", "pkg.F.func1") to a common spelling.
+func normFn(s string) string {
+	if i := strings.Index(s, " @"); i >= 0 {
+		s = s[:i]
+	}
+	s = strings.NewReplacer("(", "", ")", "", "*", "").Replace(strings.TrimSpace(s))
+	s = regexp.MustCompile(`\$(\d+)`).ReplaceAllString(s, ".func$1")
+	s = regexp.MustCompile(`\[\.\.\.\]`).ReplaceAllString(s, "")
+	return s
+}
+
 func round3(f float64) float64 { return float64(int64(f*1000)) / 1000 }
 
 func main() {
+	debug.SetGCPercent(400)
 	if v := os.Getenv("VERIF_DIR"); v != "" {
 		verifDir = v
 	}
@@ -682,7 +710,13 @@ func runMain(args []string) int {
 	gen := fs.String("gen", "", "property id whose generated harnesses to include")
 	smtlog := fs.String("smtlog", "", "log SMT input")
 	timeout := fs.Int("timeout", 0, "seconds")
+	cpuprof := fs.String("cpuprofile", "", "write a CPU profile")
 	fs.Parse(args)
+	if *cpuprof != "" {
+		f, _ := os.Create(*cpuprof)
+		pprof.StartCPUProfile(f)
+		defer pprof.StopCPUProfile()
+	}
 	extra := map[string][]byte{}
 	if m := regexp.MustCompile(`^zz(C\d+)_`).FindStringSubmatch(*fn); m != nil {
 		overlayProp = strings.ToLower(m[1])
